@@ -1,49 +1,10 @@
-import Librfn.Gen.FibreSeq
-import Librfn.Model.Fibre
+import Librfn.Props.C02TieCmp
 import Librfn.Lemmas.SchedTime
-import Std.Tactic.BVDecide
-import Librfn.Gen.Ackermann
 /-!
-# C02 — tie T for the comparator of the scheduler's timer queue (`duetime_cmp` of `fibre.c`)
-
-`fibre_timeout` files the sleeping fibre with `list_insert_sorted(&kernel.timerq, &f->link, duetime_cmp)`.  `duetime_cmp` is
-regenerated from `/repo/librfn/fibre.c` on every run (`Gen/FibreSeq.lean`; `fibre_t` in memory with the x86-64 layout
-`fn` 0, `state` 8, `priv` 10, `duetime` 12, `link` 16, so `containerof(n, fibre_t, link)->duetime` is the 32-bit word at `n - 4`).
-
-* `duetime_cmp_generated`: the value returned is `duetime(n1) - duetime(n2)` as a 32-bit difference, nothing is written, no
-  undefined operation;
-* `duetime_cmp_tie`: `duetime_cmp(n1, n2) >= 0` is the model's `dueGe` — the wrapping subtraction read as signed, which is what makes
-  the order of the timer queue independent of where the 32-bit time base stands (C02's `time_shift_invariance` is proved about
-  `dueGe`);
-* (`Props/C09TieSched.lean`, proved by the C09 check) `duetime_cmp_agrees`: as a pure function of two node addresses (the memory the due
-  times are read from held fixed) it satisfies the hypothesis `C09.Tie.CmpAgrees` under which `sorted_tie` ties `list_insert_sorted`
-  to the sequence model for every list length.
+# C02 — tie T for `fibre_timeout` (control skeleton; the comparator `duetime_cmp` is in `Props/C02TieCmp.lean`)
 -/
 namespace Librfn.C02.Tie
 open Librfn.Gen Librfn.Gen.FibreSeq
-
-/-- `containerof(n, fibre_t, link)->duetime` -/
-def dueAt (mem : Mem) (n : BitVec 64) : BitVec 32 := Mem.load32 mem (n - 4#64)
-
-theorem duetime_cmp_generated (n1 n2 : BitVec 64) (mem : Mem) :
-    (duetime_cmp n1 n2 mem).ub = false ∧ (duetime_cmp n1 n2 mem).exh = false ∧ (duetime_cmp n1 n2 mem).mem = mem ∧
-    (duetime_cmp n1 n2 mem).ret = dueAt mem n1 - dueAt mem n2 := by
-  refine ⟨?_, ?_, ?_, ?_⟩
-  · first | rfl | (unfold duetime_cmp; bv_decide (config := { timeout := 60 }))
-  · first | rfl | (unfold duetime_cmp; bv_decide (config := { timeout := 60 }))
-  · first | rfl | (unfold duetime_cmp; simp only [])
-  · -- the two due times are opaque 32-bit loads; their addresses are compared through explicit congruence facts
-    unfold duetime_cmp dueAt
-    simp only []
-    ackermann (Mem.load32 mem)
-    bv_decide (config := { timeout := 60 })
-
-/-- **tie T, `duetime_cmp`**: the sign test `list_insert_sorted` applies is the model's `dueGe` -/
-theorem duetime_cmp_tie (due : Librfn.Sched.Fid → BitVec 32) (f x : Librfn.Sched.Fid) (n1 n2 : BitVec 64) (mem : Mem)
-    (h1 : dueAt mem n1 = due f) (h2 : dueAt mem n2 = due x) :
-    BitVec.sle 0#32 (duetime_cmp n1 n2 mem).ret = Librfn.Model.Fibre.dueGe due f x := by
-  rw [(duetime_cmp_generated n1 n2 mem).2.2.2, h1, h2]
-  simp only [BitVec.sle, Librfn.Model.Fibre.dueGe, BitVec.toInt_zero, ge_iff_le]
 
 /-! ### `fibre_timeout` (the list functions are the environment; `cyclecmp32` of `util.c` is inlined) -/
 
@@ -69,9 +30,10 @@ theorem fibre_timeout_generated_mem (cur : BitVec 64) (st now : BitVec 32) (runq
     (mem : Mem) :
     (fibre_timeout cur st now runq aq timerq taint due r1 mem).mem =
       (if BitVec.sle (due - now) 0#32 then mem else Mem.store32 mem (cur + 12#64) due) := by
-  unfold fibre_timeout
-  simp only []
-  split <;> simp_all
+  funext a
+  unfold fibre_timeout Mem.store32 Mem.store16
+  simp only [Mem.ite_app, Mem.store_app]
+  bv_decide (config := { timeout := 60 })
 
 /-- **tie T, `fibre_timeout`, the decision**: it returns true exactly when the model's `notAfter due now` holds (the signed reading of
     the wrapping difference, via the `cyclecmp32` of `util.c`), and only otherwise looks at the queues -/
